@@ -44,6 +44,7 @@ type callLabel struct {
 	Reach   Term
 	Args    []Val
 	Results []Val
+	After   *State // state right after the call (contract builtin after(label, expr))
 }
 
 type Engine struct {
